@@ -27,12 +27,16 @@ structure Scen where
   span : Nat
   prod : Nat
   xexec : Nat
+  daf : String := ""
+  dabt : Nat := 0
+  ttl : Nat := 0
 
 def parse (o : Op) : Option Scen :=
   let mode := o.str "mode"
-  let s : Scen := { agg := mode = "agg", future := o.nat "future", bt := o.nat "bt", span := o.nat "span", prod := o.nat "prod", xexec := o.nat "xexec" }
+  let s : Scen := { agg := mode = "agg", future := o.nat "future", bt := o.nat "bt", span := o.nat "span", prod := o.nat "prod", xexec := o.nat "xexec", daf := o.str "daf", dabt := o.nat "dabt", ttl := o.nat "ttl" }
   let slow := o.nat "slow"
   if mode ≠ "agg" ∧ mode ≠ "full" then none
+  else if (s.daf ≠ "" ∧ s.daf ≠ "reject" ∧ s.daf ≠ "flaky" ∧ s.daf ≠ "error") ∨ s.dabt > 60000 ∨ s.ttl > 1000 ∨ (s.daf ≠ "" ∧ mode ≠ "agg") then none
   else if s.bt < 10 ∨ s.bt > 2000 ∨ s.span < 50 ∨ s.span > 20000 ∨ s.future > 60000 ∨ slow > 5000 then none
   else if mode = "full" ∧ (s.prod < 50 ∨ s.prod > 20000) then none
   else if s.xexec > 2000 ∨ (s.xexec > 0 ∧ mode ≠ "full") then none
@@ -41,11 +45,19 @@ def parse (o : Op) : Option Scen :=
 /-- where the stop request finds the workers that are not at a ctx select (parking at a point the table does not have
 is a no-op in `stopsPromptly`: the worker is then at its ctx select like the others) -/
 def parkOf (s : Scen) : List (Nat × BP) :=
-  if s.agg ∧ s.future > 0 ∧ s.future + s.bt > s.span + boundMs then
+  (if s.agg ∧ s.future > 0 ∧ s.future + s.bt > s.span + boundMs then
     match Gen.C13.aggregatorWorkers.idxOf? 0 with
     | some i => [(i, .sleep false)]
     | none => []
-  else []
+  else []) ++
+  -- every submission is rejected and the retry back-off (DA block time x mempool TTL) outlasts the stop bound, while the
+  -- submission ticker (one DA block time) fires well before the stop request: it finds both submission loops
+  -- (codes 2, 3) in their back-off wait, if that is a sleep
+  (if s.agg ∧ s.daf = "reject" ∧ (if s.dabt = 0 then s.bt else s.dabt) * 4 < s.span ∧
+        (if s.dabt = 0 then s.bt else s.dabt) * (if s.ttl = 0 then 1 else s.ttl) > s.span + boundMs then
+    (match Gen.C13.aggregatorWorkers.idxOf? 2 with | some i => [(i, BP.sleep false)] | none => []) ++
+    (match Gen.C13.aggregatorWorkers.idxOf? 3 with | some i => [(i, BP.sleep false)] | none => [])
+  else [])
 
 /-- full node whose execution layer aborts its calls with the context's error when the node is stopped: both
 SyncLoop (code 8) and DAIncluderLoop (code 4) are on their way to a plain `errCh <- err`, if they have one -/
